@@ -402,7 +402,7 @@ PROPS['C28'] = {
     'level': 'Static convention analysis of mpyc.secgroups -- exactly the recombination trick the single-party suite cannot exercise.',
 }
 PROPS['C37'] = {
-    'rules': [R(sg.rule_TC1), R(sg.rule_SG1), R(sg.rule_SG2), R(pc.rule_PC1), R(pa.rule_SS1), R(pa.rule_NL1), R(ss.rule_SS3), R(ss.rule_SS7), R(ss.rule_PR1), R(fx.rule_FX1), R(fx.rule_FX3), R(op.rule_OP6), R(op.rule_OP7), R(sg.rule_AW1), R(sn.rule_IP1), R(sn.rule_SN1), R(sn.rule_SN2), R(sn.rule_SN3)],
+    'rules': [R(sg.rule_TC1), R(sg.rule_SG1), R(sg.rule_SG2), R(pc.rule_PC1), R(pa.rule_SS1), R(pa.rule_NL1), R(ss.rule_SS3), R(ss.rule_SS7), R(ss.rule_PR1), R(fx.rule_FX1), R(fx.rule_FX3), R(op.rule_OP6), R(op.rule_OP7), R(sg.rule_AW1), R(sn.rule_IP1), R(sn.rule_SN1), R(sn.rule_SN2), R(sn.rule_SN3), R(sg.rule_WK1)],
     'floors': {'OP7': 12, 'AW1': 18, 'IP1': 4, 'TC1': 10, 'SG1': 10, 'SG2': 1, 'PC1': 40, 'SS1': 60, 'NL1': 25, 'SS3': 9, 'SS7': 8, 'PR1': 12, 'FX1': 60, 'FX3': 15, 'OP6': 14, 'SN1': 4, 'SN2': 2, 'SN3': 3},
     'explanation': 'Sibling and plumbing clauses for code the suite cannot even import (no numpy): array coroutines agree with their scalar siblings on '
                    'mask bounds (as linear forms), opening thresholds, option/field-size case splits, PRSS calls and head-room (SG1); a type that is an '
